@@ -307,6 +307,9 @@ type Upd struct {
 	zero   bool // whole array arr holds zero values
 	// generic "region havoc": elements of arr in [lo, lo+n) take values from fresh two-level arrays
 	havoc []string
+	// elements [0, n) of arr are the elements of the array value fromVal (slicing an array-valued location)
+	fromVal string
+	fromFn  string
 }
 
 type Lazy struct {
@@ -338,6 +341,9 @@ func (l *Lazy) readL(arr, idx string, log *[]IdxT) []string {
 		switch {
 		case u.zero:
 			hit, v = sEq(arr, u.arr), l.zeroTerms()
+		case u.fromVal != "":
+			hit = sAnd(sEq(arr, u.arr), sLe("0", idx), sLt(idx, u.n))
+			v = []string{"(" + u.fromFn + " " + u.fromVal + " " + idx + ")"}
 		case u.havoc != nil:
 			hit = sAnd(sEq(arr, u.arr), sLe(u.lo, idx), sLt(idx, sAdd(u.lo, u.n)))
 			v = make([]string, n)
@@ -441,6 +447,7 @@ type State struct {
 	held       map[string]string // lock address key -> Bool term ("true","false", symbolic); "R:" prefix for read-held
 	defers     [][]Deferred
 	alloc      string
+	epochAlloc string // allocation watermark at the start of the current heap epoch: bound for refs stored in lazily created base arrays
 	ghost      map[string]Val
 	idx        []IdxT               // index terms seen on this path, with the sequence they index
 	visited    map[ssa.Value]string // range-over-map iterator -> visited set term
@@ -456,7 +463,7 @@ type State struct {
 func (st *State) clone() *State {
 	n := &State{
 		env: make(map[ssa.Value]Val, len(st.env)), heap: make(map[string]*HArr, len(st.heap)), lazy: make(map[string]*Lazy, len(st.lazy)),
-		epoch: st.epoch, hv: st.hv, pc: st.pc[:len(st.pc):len(st.pc)], held: make(map[string]string, len(st.held)), alloc: st.alloc,
+		epoch: st.epoch, hv: st.hv, epochAlloc: st.epochAlloc, pc: st.pc[:len(st.pc):len(st.pc)], held: make(map[string]string, len(st.held)), alloc: st.alloc,
 		ghost: make(map[string]Val, len(st.ghost)), idx: st.idx[:len(st.idx):len(st.idx)],
 		visited: make(map[ssa.Value]string, len(st.visited)), depth: st.depth, visitedKey: st.visitedKey,
 		dbg: make(map[string]Val, len(st.dbg)), dbgAddr: make(map[string]Val, len(st.dbgAddr)), applied: make(map[string]bool, len(st.applied)),
@@ -551,3 +558,5 @@ func stripComp(key string) string {
 	}
 	return key
 }
+
+var typesUntypedInt types.Type = types.Typ[types.UntypedInt]
